@@ -41,7 +41,7 @@ PROPERTIES
   Act_C09_IdentityGh
   Act_C09_Identity
   Act_C09_Authority
-  Act_C09_Cap_ModF5
+  Act_C09_Cap
   Act_C09_Burned
   Act_C09_Fee
   Act_Rejected_NoEffect
